@@ -4,8 +4,9 @@
 //!
 //! The model consumes a lazily buffered word stream (supplied by a twin generator that is only
 //! ever asked for native-width words) and predicts each returned value. Where the statement is
-//! silent (a zero-length `fill_bytes` between two `next_u32` of `Isaac64Rng`: does the pending
-//! half survive?) the model keeps both continuations; it never holds more than two candidates.
+//! silent the model may keep several continuations (it never holds more than two candidates);
+//! at present no rule is two-valued: an empty `fill_bytes` between two `next_u32` of `Isaac64Rng`
+//! ends the "immediately following" window like any other call (see DESIGN.md section 12).
 
 use super::vigna::mix4_upper32;
 use crate::adapter::{Engine, Half, Info};
@@ -158,8 +159,11 @@ impl Projection {
             self.events.tail_1_7 = true;
         }
         if buffered {
-            // first n little-endian bytes of the next ceil(n / wordbytes) buffered words
-            if n > 0 && c.pending.take().is_some() {
+            // first n little-endian bytes of the next ceil(n / wordbytes) buffered words; the high
+            // half of a word is only ever returned by an *immediately following* next_u32, so any
+            // fill_bytes call of a block generator — also an empty one — ends that chance (for the
+            // composition-defined generators below an empty fill is zero calls and changes nothing)
+            if c.pending.take().is_some() {
                 self.events.pending_then_other = true;
             }
             let wb = (self.info.word / 8) as usize;
@@ -200,13 +204,11 @@ impl Projection {
         let mut first_expected = None;
         let cands = std::mem::take(&mut self.cands);
         for c0 in cands {
-            let mut variants = vec![c0.clone()];
-            // the statement does not say whether a zero-length fill of the block generator
-            // Isaac64Rng drops a pending half: keep both continuations
+            let variants = vec![c0.clone()];
             if let Op::Fill(0) = op {
                 if self.info.engine == Engine::Isaac64 && c0.pending.is_some() {
+                    // classified for the evidence: an empty fill between two next_u32 calls
                     self.events.ambiguous_zero_fill = true;
-                    variants.push(Cand { cursor: c0.cursor, pending: None });
                 }
             }
             for mut c in variants {
